@@ -78,6 +78,14 @@ PROPS = {
         uncovered=['the 508 byte budget and well-formedness of answers (string / JSON theory): bounded stand-in only; start-up broadcast'],
         bounded=[CB('discovery-contracts', 'contracts/discovery.py', 'gens_discovery')],
     ),
+    'C08': dict(
+        contract_files=['contracts/events.py'],
+        level='proof',
+        trusted_base=COMMON_TRUSTED + ['conn.send_reply records the message and does not raise'],
+        uncovered=['interleavings of poll-thread updates with activate/deactivate (the initial snapshot of handle_activate is not atomic'
+                   ' with the module update lock): not within reach of sequential contracts; delivery to exactly the listeners: bounded'],
+        bounded=[CB('event-contracts', 'contracts/events.py', 'gens_events')],
+    ),
     'C07': dict(
         contract_files=['contracts/protocol.py'],
         level='proof',
